@@ -191,7 +191,7 @@ Section Clauses.
 
   Lemma ok_derived : forall p, In p (soft cfg ++ writer_writes cfg) -> derived_pat p = true.
   Proof.
-    intros p Hp. split_fail. rename F into F9.
+    intros p Hp. split_fail.
     apply in_app_or in Hp as [Hp|Hp]; [unfold soft in Hp; apply in_app_or in Hp as [Hp|Hp]|].
     - apply in_concat in Hp as [l [Hl Hp]]. apply in_map_iff in Hl as [qc [E Hq]]. subst.
       pose proof (concat_map_nil _ _ _ _ F7 qc Hq) as G. simpl in G.
